@@ -105,6 +105,8 @@ pub fn classify_err(e: &anyhow::Error) -> CallResult {
             FeigError::NoCardPresented => ErrClass::NoCardPresented,
             FeigError::NeedsPinEntry => ErrClass::NeedsPinEntry,
             FeigError::UnexpectedPacket => ErrClass::UnexpectedPacket,
+            #[allow(unreachable_patterns)]
+            _ => ErrClass::Other,
         }
     } else if let Some(ze) = e.downcast_ref::<zvt::ZVTError>() {
         match ze {
@@ -225,6 +227,8 @@ pub fn run_scenario(sc: &Scenario, schema: &Arc<Schema>) -> Trace {
                     Call::ReadCard => match feig.read_card().await {
                         Ok(CardInfo::Bank) => CallResult::Ok(OkVal::Bank),
                         Ok(CardInfo::MembershipCard(s)) => CallResult::Ok(OkVal::Membership(s)),
+                        #[allow(unreachable_patterns)]
+                        Ok(_) => CallResult::Ok(OkVal::Unit),
                         Err(e) => classify_err(&e),
                     },
                     Call::Begin(t) => match feig.begin_transaction(t).await {
@@ -275,7 +279,7 @@ pub fn scenario_json(sc: &Scenario) -> serde_json::Value {
         "plan": {
             "exchanges": sc.plan.ex.iter().map(|(k, q)| (format!("call {} {:?}", k.0, k.1), q.iter().map(|x| format!("{x:?}")).collect::<Vec<_>>())).collect::<std::collections::BTreeMap<_, _>>(),
             "faults": sc.plan.faults.iter().map(|f| format!("{f:?}")).collect::<Vec<_>>(),
-            "delay_ms": sc.plan.delay_ms, "split_delay_ms": sc.plan.split_delay_ms, "flip_serial_case": sc.plan.flip_serial_case,
+            "delay_ms": sc.plan.delay_ms, "split_delay_ms": sc.plan.split_delay_ms, "flip_serial_case": sc.plan.flip_serial_case, "dangling_from_call": sc.plan.dangling_from_call.map(|x| format!("{x:?}")),
         },
         "history": sc.calls.iter().map(|c| format!("{c:?}")).collect::<Vec<_>>(),
     })
